@@ -961,12 +961,63 @@ def report_tree(ctx, rec: dict, bad: List[Tuple[dict, Finding]]):
                       replay_dict(small_rec, small_o, small_f))
 
 
+def _spec_candidates(spec) -> List[dict]:
+    """smaller spec trees: a node replaced by one of its children, sequence parts dropped, decorations dropped,
+    counts / ranges reduced (own copy: the shared shrinker of ptcheck may change)"""
+    out: List[dict] = []
+
+    def rec(node, rebuild):
+        for ch in ptgen.children(node):
+            out.append(rebuild(copy.deepcopy(ch)))
+        k = node['k']
+        if k == 'seq' and len(node['subs']) > 1:
+            for i in range(len(node['subs'])):
+                n = copy.deepcopy(node)
+                del n['subs'][i]
+                out.append(rebuild(n))
+        for key in ('meas', 'cons'):
+            if node.get(key):
+                n = copy.deepcopy(node)
+                n[key] = []
+                out.append(rebuild(n))
+        if k == 'rep' and node['count'] not in ('1', '2'):
+            for cnt in ('1', '2'):
+                n = copy.deepcopy(node)
+                n['count'] = cnt
+                out.append(rebuild(n))
+        if k == 'for' and node['range'] != ['0', '2', '1']:
+            n = copy.deepcopy(node)
+            n['range'] = ['0', '2', '1']
+            out.append(rebuild(n))
+        if k in ('seq', 'amulti'):
+            for i, ch in enumerate(node['subs']):
+                def rb(x, i=i, node=node):
+                    n = copy.deepcopy(node)
+                    n['subs'][i] = x
+                    return rebuild(n)
+                rec(ch, rb)
+        elif k == 'aarith':
+            for key in ('lhs', 'rhs'):
+                def rb(x, key=key, node=node):
+                    n = copy.deepcopy(node)
+                    n[key] = x
+                    return rebuild(n)
+                rec(node[key], rb)
+        elif 'body' in node:
+            def rb(x, node=node):
+                n = copy.deepcopy(node)
+                n['body'] = x
+                return rebuild(n)
+            rec(node['body'], rb)
+    rec(spec, lambda x: x)
+    return out
+
+
 def shrink(ctx, rec, o, f, rounds=5):
     """delta debugging on the spec tree: a smaller tree is kept if some option set of it shows the same clause"""
-    import c01
     best = (rec, o, f)
     for _ in range(rounds):
-        cands = c01._candidates(best[0]['case']['spec'])[:40]
+        cands = _spec_candidates(best[0]['case']['spec'])[:40]
         progressed = False
         descs = []
         for i, s in enumerate(cands):
@@ -1460,9 +1511,8 @@ def assess_helper(ctx, rec: dict, reply, count=True) -> List[Finding]:
         ctx.count('helper-impl:' + H['status'])
     tag = '%s %s' % (kind, {k: v for k, v in meta.items() if k in ('shape', 'style', 'flattened', 'overlap', 'pad_dur')})
     neg_rep = kind == 'withRepetition' and meta.get('style') == 'neg' and meta.get('inner_negative')
-    pf11 = set(rec.get('pf11_E', [])) | set(rec.get('pf11_H', []))
-    if kind == 'withParallelChannels' and meta.get('overlap'):
-        pf11 |= set(E['chans']) if E['status'] == 'ok' and isinstance(E['chans'], list) else set()
+    pf11_h = set(rec.get('pf11_H', []))           # channels on which the helper's own program shows PF-11
+    pf11 = set(rec.get('pf11_E', [])) | pf11_h    # ... or the explicit nesting's program
     # --- metamorphic: helper vs explicit nesting, both real
     if H['status'] != E['status']:
         out.append(Finding('helper-status', '%s: the helper gives %s%s, the explicit nesting %s%s (params %s)'
@@ -1508,7 +1558,7 @@ def assess_helper(ctx, rec: dict, reply, count=True) -> List[Finding]:
             for v in ptcheck.judge(fake, {'spec': spec_e}, ('samples', 'windows', 'durations')):
                 if v['clause'] == 'channels' and H['chans'] == 'nonuniform':
                     continue
-                known = 'PF-11' if (v['clause'] == 'value' and v.get('channel') in pf11) else None
+                known = 'PF-11' if (v['clause'] == 'value' and v.get('channel') in pf11_h) else None
                 out.append(Finding('helper-spec-' + v['clause'], '%s against denote(explicit nesting): %s' % (tag, v['what']),
                                    known=known, channel=v.get('channel')))
         elif H['status'] == 'empty' and spec_e['status'] == 'ok':
